@@ -61,7 +61,7 @@ CHECKS = {
     "C20": (MC, "merge: multiset union by object identity + sortedness; psth and Poisson generator against contract models of "
             "numpy's linspace/histogram/exponential", "DESIGN.md 6/C20"),
 }
-READY = set("C01 C03 C04 C09 C10 C11 C14 C16 C20".split())
+READY = set(CHECKS)
 
 NOT_APPLICABLE = {
     "C19": "text round-trip / file parsing: decimal<->binary float conversion and file I/O run in C code with no "
